@@ -3873,6 +3873,9 @@ def exist_added_packages(suppressed: list[str], manager: BuildManager) -> bool:
             continue
         if os.path.basename(path) in ("__init__.py", "__init__.pyi"):
             return True
+        if manager.fscache.isdir(path):
+            # A namespace package (the path is the directory itself).
+            return True
     return False
 
 
